@@ -16,6 +16,8 @@ type Case struct {
 	Engine   string   `json:"engine"`
 	Kind     string   `json:"kind"`
 	Tape     []uint32 `json:"tape"`
+	// Sched: schedule choices of the kinds that run under the goroutine scheduler
+	Sched []uint32 `json:"sched,omitempty"`
 }
 
 type Finding struct {
@@ -27,6 +29,7 @@ type Stats struct {
 	Files, Bytes, Deliveries int64
 	Frags, Zero, DataEOF     int64
 	Faces, Rows              int64
+	Steps                    int64
 	WriteFaults              int64
 	Shapes                   map[string]struct{}
 	Sample                   any
